@@ -42,8 +42,68 @@ def run(ctx) -> None:
     for p, En, real, model, entry in run_maps_correspondence(ctx, "C09", ctx.n(20, 500), force=zeros):
         mismatch_failure(ctx.report, "C09", p, En, real, model, entry)
     report_mismatches(ctx.report, "C09", run_bmadx_correspondence(ctx, "C09", ctx.n(10, 200)))
+    vector_off_probe(ctx, ctx.n(12, 200))
     if F is not None:
         F.run(ctx)
+
+
+def vector_off_probe(ctx, n: int) -> None:
+    """switched-off elements with a vectorised length that mixes zero and non-zero entries: every entry must track
+    like a Drift of its own length (both beam types) - the whole-tensor `any(length != 0)` / `any(voltage != 0)`
+    branches are exactly where a batch-wide decision can leak into the switched-off case"""
+    import numpy as np
+    import torch
+    import cheetah
+    import lattices as LT
+    rep, rng = ctx.report, ctx.rng
+    F64 = torch.float64
+    tt = lambda x: torch.tensor(x, dtype=F64)  # noqa: E731
+    for _ in range(n):
+        Ls = [0.0, float(rng.uniform(0.2, 1.5)), float(rng.uniform(0.2, 1.5))]
+        rng.shuffle(Ls)
+        if rng.random() < 0.3:
+            Ls = [x for x in Ls if x > 0]
+        cls = str(rng.choice(["Quadrupole", "Dipole", "RBend", "Solenoid", "HorizontalCorrector", "Cavity"]))
+        L = tt(Ls)
+        z = torch.zeros_like(L)
+        el = {"Quadrupole": lambda: cheetah.Quadrupole(length=L, k1=z, tilt=tt(float(rng.uniform(-1, 1))), dtype=F64),
+              "Dipole": lambda: cheetah.Dipole(length=L, angle=z, dipole_e1=tt(0.1), dipole_e2=tt(-0.2), tilt=tt(0.3),
+                                               gap=tt(0.02), fringe_integral=tt(0.5), dtype=F64),
+              "RBend": lambda: cheetah.RBend(length=L, angle=z, rbend_e1=tt(0.0), tilt=tt(0.3), dtype=F64),
+              "Solenoid": lambda: cheetah.Solenoid(length=L, k=z, dtype=F64),
+              "HorizontalCorrector": lambda: cheetah.HorizontalCorrector(length=L, angle=z, dtype=F64),
+              "Cavity": lambda: cheetah.Cavity(length=L, voltage=z, phase=tt(30.0), frequency=tt(1.3e9), dtype=F64)}[cls]()
+        En = float(E.energy(rng, low=True))
+        P = LT.gen_particles(rng, 8)
+        for bt in ("ParticleBeam", "ParameterBeam"):
+            b = LT.particle_beam(P, En) if bt == "ParticleBeam" else LT.parameter_beam_from(P, En)
+            rep.fals_cases += 1
+            rep.count(f"vector-off:{cls}:{bt}")
+            rep.case(("vector-off", cls, bt, len(Ls), 0.0 in Ls))
+            try:
+                out = el.track(b)
+            except Exception as ex:
+                rep.fail("falsifier", f"C09|{cls}|strength==0|vectorised length|{bt}|raises",
+                         f"{cls} with zero strength and length {Ls} raises {type(ex).__name__}: {ex}",
+                         {"kind": "vector-off", "cls": cls, "lengths": Ls, "energy": En, "beam": bt})
+                continue
+            for i, Li in enumerate(Ls):
+                ref = cheetah.Drift(length=tt(Li), dtype=F64).track(b)
+                if bt == "ParticleBeam":
+                    got, want = out.particles[i], ref.particles
+                else:
+                    got, want = torch.cat([out._mu[i], out._cov[i].reshape(-1)]), torch.cat([ref._mu, ref._cov.reshape(-1)])
+                sc = torch.tensor(list(LT.REF_SIG), dtype=F64)
+                if bt == "ParticleBeam":
+                    err = ((got - want).abs() / sc).max()
+                else:
+                    err = max(((got[:7] - want[:7]).abs() / sc).max(),
+                              ((got[7:] - want[7:]).abs().reshape(7, 7) / torch.outer(sc, sc)).max())
+                if not torch.isfinite(got).all() or float(err) > 1e-8:
+                    rep.fail("falsifier", f"C09|{cls}|strength==0|vectorised length|{bt}|differs from drift",
+                             f"{cls}(strength 0, length={Ls}) entry {i}: differs from Drift({Li}) by {float(err):.2e} (scaled)",
+                             {"kind": "vector-off", "cls": cls, "lengths": Ls, "energy": En, "beam": bt, "entry": i})
+                    break
 
 
 def corpus_case(ctx, r: dict) -> None:
